@@ -1,4 +1,4 @@
-use html5ever::{tendril::StrTendril, Attribute, LocalName};
+use html5ever::{namespace_url, ns, tendril::StrTendril, Attribute, LocalName};
 use phf::{phf_map, phf_set, Map, Set};
 use wildmatch::WildMatch;
 
@@ -364,10 +364,14 @@ impl SanitizerConfig {
 
                 // Check if the attribute is allowed.
                 if whitelist_attrs {
+                    // The lists contain the names of HTML attributes. An attribute in a namespace
+                    // (like `xlink:href` in SVG or MathML content) is serialized with its prefix,
+                    // so it is not the HTML attribute with the same local name.
+                    let is_html_attr = attr.name.ns == ns!();
                     let list_allowed = list_allow_attrs.is_some_and(|set| set.contains(attr_name));
                     let mode_allowed = mode_allow_attrs.is_some_and(|set| set.contains(attr_name));
 
-                    if !list_allowed && !mode_allowed {
+                    if !is_html_attr || (!list_allowed && !mode_allowed) {
                         return Some(AttributeAction::Remove(attr.to_owned()));
                     }
                 }
